@@ -22,7 +22,7 @@ CHECKS = {
         "compared with the six documented steps; a complete smaller product of branch sets x tag sets x versions is run on a real local "
         "git repository. Exhaustive within the stated universe, which contains every shape the statement names (minor 0, patch 0, "
         "suffix, other majors, unrelated names).",
-        "Trusted: the reference transcription of docs/track.rst (30 lines), git itself. Remote repositories are not exercised.",
+        "Trusted: the reference transcription of docs/track.rst (30 lines), git itself; remote repositories are a local origin + clone pair (layers 3 and 4).",
     ),
     "C16": (
         "fault_enumeration",
